@@ -29,15 +29,15 @@ ASSUME = [
 # which deviation excuses which property-level reading (printed by the trace spec as "Cxx:<reading>")
 EXCUSES = {
     "C13:LostOnePerDeath": ["StaleCompletion"], "C13:ViewExact": ["StaleCompletion"],
-    "C14:KeyExclusive": ["StaleCompletion"], "C14:KeyFifo": ["StaleCompletion"], "C14:OneAtATime": ["StaleCompletion"],
+    "C14:KeyExclusive": ["StaleCompletion", "ParkedJobNotSticky"], "C15:QueueBound": ["ClosedWorkerQueueOverLimit"], "C14:KeyFifo": ["StaleCompletion"], "C14:OneAtATime": ["StaleCompletion"],
     "C14:QueuerNoIdle": ["StaleCompletion"],
     "C15:PoolConverges": ["DrainingSlotReplaced", "StaleCompletion"], "C15:DrainComplete": ["StaleCompletion"],
 }
 
 MC_QUICK = {
-    "C13": ["queuer", "keyp", "drain", "custom"],
-    "C14": ["queuer", "sticky", "keyp", "rr", "custom"],
-    "C15": ["queuer", "drain", "rl", "rr", "keyp"],
+    "C13": ["queuer", "keyp", "drain", "custom", "keyp_stop"],
+    "C14": ["queuer", "sticky", "keyp", "rr", "custom", "keyp_stop", "sticky_stop"],
+    "C15": ["queuer", "drain", "rl", "rr", "keyp", "keyp_stop"],
 }
 MC_THOROUGH = {
     "C13": ["big_queuer", "big_keyp", "big_custom"],
@@ -46,9 +46,9 @@ MC_THOROUGH = {
 }
 # vacuity: each of these must be VIOLATED (the situation is reachable in the closed model)
 REACH = {
-    "C13": [("sticky", "NeverStale")],
-    "C14": [("sticky", "NeverStale"), ("sticky", "NeverExclBad")],
-    "C15": [("queuer", "NeverDrainingSlotReplaced"), ("drain", "NeverDrained")],
+    "C13": [("sticky", "NeverStale"), ("keyp_stop", "NeverClosing")],
+    "C14": [("sticky", "NeverStale"), ("sticky", "NeverExclBad"), ("keyp_stop", "NeverClosing"), ("sticky_stop", "NeverParked")],
+    "C15": [("queuer", "NeverDrainingSlotReplaced"), ("drain", "NeverDrained"), ("keyp_stop", "NeverClosedCastFails")],
 }
 
 
